@@ -346,7 +346,7 @@ pub fn ref_v9(b: &[u8], cache: &mut RefCache, q: &mut Q) -> Result<(CVar, usize)
                     let tid = r16(r, 0);
                     let cnt = r16(r, 2) as usize;
                     if r.len() < 4 + 4 * cnt {
-                        return nc("template record incomplete");
+                        break; // an incomplete trailing record defines nothing; the bytes are padding
                     }
                     let fields: Vec<FieldSpec> = (0..cnt).map(|i| FieldSpec { ty: r16(r, 4 + 4 * i), len: r16(r, 6 + 4 * i), pen: None }).collect();
                     ts.push(CTpl::Plain(tid, cnt as u16, fields.iter().map(ctf_v9).collect()));
@@ -366,7 +366,7 @@ pub fn ref_v9(b: &[u8], cache: &mut RefCache, q: &mut Q) -> Result<(CVar, usize)
                         return nc("scope/option length not a multiple of 4");
                     }
                     if r.len() < 6 + sl + ol {
-                        return nc("options template record incomplete");
+                        break;
                     }
                     let rd = |base: usize, n: usize| -> Vec<FieldSpec> { (0..n).map(|i| FieldSpec { ty: r16(r, base + 4 * i), len: r16(r, base + 2 + 4 * i), pen: None }).collect() };
                     let scope = rd(6, sl / 4);
@@ -637,7 +637,7 @@ pub fn ref_ipfix_sets(b: &[u8], cache: &mut RefCache, q: &mut Q) -> Result<(Vec<
                     let cnt = r16(r, 2) as usize;
                     let (fields, used) = match ipfix_fieldspecs(&r[4..], cnt) {
                         Some(x) => x,
-                        None => return nc("template record incomplete"),
+                        None => break,
                     };
                     ts.push(CTpl::Plain(tid, cnt as u16, fields.iter().map(ctf_ipfix).collect()));
                     cache.ipfix.insert(tid, RefTpl::Plain(fields));
@@ -654,7 +654,7 @@ pub fn ref_ipfix_sets(b: &[u8], cache: &mut RefCache, q: &mut Q) -> Result<(Vec<
                     let sc = r16(r, 4);
                     let (fields, used) = match ipfix_fieldspecs(&r[6..], cnt) {
                         Some(x) => x,
-                        None => return nc("options template record incomplete"),
+                        None => break,
                     };
                     ts.push(CTpl::IpfixOpt(tid, cnt as u16, sc, fields.iter().map(ctf_ipfix).collect()));
                     cache.ipfix.insert(tid, RefTpl::IpfixOpt(sc, fields));
@@ -707,7 +707,7 @@ fn ref_ipfix_sets_one_template_set(body: &[u8], cache: &mut RefCache) -> Result<
         let cnt = r16(r, 2) as usize;
         let (fields, used) = match ipfix_fieldspecs(&r[4..], cnt) {
             Some(x) => x,
-            None => return nc("template record incomplete"),
+            None => break,
         };
         ts.push(CTpl::Plain(tid, cnt as u16, fields.iter().map(ctf_ipfix).collect()));
         cache.ipfix.insert(tid, RefTpl::Plain(fields));
